@@ -68,6 +68,11 @@ class TagScenario(Scenario):
         return Scenario.leaf(self, t)
 
 
+def leafname(op):
+    """name of a method or module-level function from its qualified name"""
+    return op.split(":")[-1].split(".")[-1]
+
+
 class InvalidUnitSignal(Exception):
     pass
 
@@ -241,7 +246,7 @@ def run(M, rep, tier, only=None):
         bad = None
         n = 0
         for p in mctx.paths(g, "MultiTag"):
-            calls = [e for e in p.events if e.kind == "ocall" and e.op.endswith("." + CALC)]
+            calls = [e for e in p.events if e.kind == "ocall" and leafname(e.op) == CALC]
             if not calls:
                 if p.normal:
                     bad = (p, "a normal path does not compute the slices")
@@ -296,8 +301,8 @@ def run(M, rep, tier, only=None):
                     continue
                 n += 1
                 rv = p.terminal[1].t
-                calc = [e for e in p.events if e.kind == "ocall" and (e.op.endswith("." + CALC) or (f_mcalc is not None and e.op == f_mcalc.qual))]
-                inb = [e for e in p.events if e.kind == "ocall" and e.op.endswith("." + INB)]
+                calc = [e for e in p.events if e.kind == "ocall" and (leafname(e.op) == CALC or (f_mcalc is not None and e.op == f_mcalc.qual))]
+                inb = [e for e in p.events if e.kind == "ocall" and leafname(e.op) == INB]
                 txt = show(rv)
                 if lt == "Tagged":
                     if not calc or not inb:
@@ -338,7 +343,7 @@ def run(M, rep, tier, only=None):
             if not p.normal:
                 continue
             n += 1
-            calc = [e for e in p.events if e.kind == "ocall" and (e.op.endswith("." + CALC) or (f_mcalc is not None and e.op == f_mcalc.qual))]
+            calc = [e for e in p.events if e.kind == "ocall" and (leafname(e.op) == CALC or (f_mcalc is not None and e.op == f_mcalc.qual))]
             if not calc:
                 bad = (p, "a view is returned without computing the tagged region")
                 continue
@@ -354,7 +359,7 @@ def run(M, rep, tier, only=None):
             if not sel:
                 bad = (p, "the reference index does not select the array whose data is returned")
             if cn == "Tag":
-                inb = [x for x in p.events if x.kind == "ocall" and x.op.endswith("." + INB)]
+                inb = [x for x in p.events if x.kind == "ocall" and leafname(x.op) == INB]
                 empty = [v for a, v in p.decisions if a[0] == "truthy" and "all(" in show(a[1])]
                 if not inb and not (empty and empty[0] is False):
                     bad = (p, "a view is returned without the bounds refusal although the region is not empty")
